@@ -388,6 +388,8 @@ pub enum Prov {
     NotNot,
     /// resized to len+200 then truncated back (spare capacity left by shrinking)
     GrowShrink,
+    /// with_capacity(c) then extend
+    Cap(u16),
 }
 
 pub const ALL_PROVS: &[Prov] = &[
@@ -404,34 +406,38 @@ pub const ALL_PROVS: &[Prov] = &[
 ];
 
 impl Prov {
-    pub fn name(self) -> &'static str {
+    pub fn name(self) -> String {
         match self {
-            Prov::Fresh => "fresh",
-            Prov::BinStr => "binstr",
-            Prov::Trunc => "trunc",
-            Prov::Reserve1 => "reserve1",
-            Prov::Reserve200 => "reserve200",
-            Prov::WithCap => "withcap",
-            Prov::DynExact => "dynexact",
-            Prov::Conv => "conv",
-            Prov::NotNot => "notnot",
-            Prov::GrowShrink => "growshrink",
+            Prov::Fresh => "fresh".into(),
+            Prov::BinStr => "binstr".into(),
+            Prov::Trunc => "trunc".into(),
+            Prov::Reserve1 => "reserve1".into(),
+            Prov::Reserve200 => "reserve200".into(),
+            Prov::WithCap => "withcap".into(),
+            Prov::DynExact => "dynexact".into(),
+            Prov::Conv => "conv".into(),
+            Prov::NotNot => "notnot".into(),
+            Prov::GrowShrink => "growshrink".into(),
+            Prov::Cap(c) => format!("cap:{}", c),
         }
     }
     pub fn parse(s: &str) -> Option<Prov> {
+        if let Some(c) = s.strip_prefix("cap:") {
+            return c.parse().ok().map(Prov::Cap);
+        }
         ALL_PROVS.iter().copied().find(|p| p.name() == s)
     }
     pub fn applies(self, kind: K, len: usize) -> bool {
         match self {
             Prov::Fresh | Prov::BinStr | Prov::NotNot | Prov::Conv => true,
             Prov::Trunc => kind.cap().map_or(true, |c| len < c),
-            Prov::Reserve1 | Prov::Reserve200 | Prov::WithCap | Prov::GrowShrink => kind == K::D || kind == K::A,
+            Prov::Reserve1 | Prov::Reserve200 | Prov::WithCap | Prov::GrowShrink | Prov::Cap(_) => kind == K::D || kind == K::A,
             Prov::DynExact => kind == K::A,
         }
     }
     /// does this route leave spare capacity / non-default storage mode
     pub fn spare(self) -> bool {
-        matches!(self, Prov::Reserve1 | Prov::Reserve200 | Prov::WithCap | Prov::GrowShrink | Prov::DynExact)
+        matches!(self, Prov::Reserve1 | Prov::Reserve200 | Prov::WithCap | Prov::GrowShrink | Prov::DynExact | Prov::Cap(_))
     }
 }
 
